@@ -51,6 +51,16 @@ META = {
 }
 
 MODE = {"C15": "plain", "C16": "enc", "C17": "any"}
+# which fault alphabet (generator Mode) feeds which behaviour set; st/cov: (Mode, Cover)
+RECIPE = {
+    "C15": {"all": ["plain"], "st": ("plain", "state"), "cov": ("plain", "state"), "sim": ["plain"]},
+    # C16: encrypted link (retransmissions fail their MIC and take the acknowledge(pdu) path) and plain link
+    #      (retransmissions reach received()) - the counter callbacks must be right on both paths
+    "C16": {"all": ["enc", "plain"], "st": ("enc", "mic"), "cov": ("plain", "state"), "sim": ["enc", "plain"]},
+    # C17: MIC failures anywhere; half of the random behaviours with MIC failures on retransmissions only (they
+    #      survive the known finding and are validated to the end)
+    "C17": {"all": ["any"], "st": ("any", "mic"), "cov": ("any", "mic"), "sim": ["any", "enc"]},
+}
 JOBS = int(os.environ.get("VERIF_JOBS", "6"))
 LENS = [1, 27, 5, 2, 13, 26, 3, 9, 20]
 INVS = "INVARIANTS TraceInv\n"
@@ -139,7 +149,7 @@ def diag_lines(out):
     while k < len(lines):
         line = lines[k].strip()
         k += 1
-        if not line.startswith('<<"DIAG"'):
+        if not re.match(r'<<\s*"DIAG"', line):
             continue
         while line.count("<<") > line.count(">>") and k < len(lines):
             line += " " + lines[k].strip()
@@ -303,7 +313,7 @@ def run(c):
         "the central follows Core 4.5.9 (SN/NESN), sends only LLID 1..3 and respects max_rx_size; it is played by the "
         "harness and its headers are validated against the model (CentralSends / CentralRx)",
         "upper layer commits non-empty PDUs of at most max_tx_size; calls are sequential (no preemption inside a call)",
-        "fault alphabet of this property: %s" % {"plain": "lost, CRC error, no buffer in both directions (no MIC failures)",
+        "fault alphabet of this property (C16 additionally replays the plain alphabet): %s" % {"plain": "lost, CRC error, no buffer in both directions (no MIC failures)",
                                                  "enc": "plain + encrypted link: the harness lets the MIC of a data PDU fail iff the buffer's "
                                                         "receive packet counter differs from the PDU's packet counter (CCM), i.e. on "
                                                         "retransmissions of PDUs that were already accepted and counted",
@@ -330,16 +340,15 @@ def run(c):
         f_asis = ex.submit(vlib.model_check, c, "LLData", "LLDataImpl.tla", "MCImplC17AsIs.cfg", workers=4,
                            must_hold=False) if c.prop == "C17" else None
         f_build = ex.submit(build_all, c, sizes)
-        # 2. behaviours
-        f_all = ex.submit(gen, c, "all", 3, 3, 2, 2, d_all, mode, "all")
-        scover = "state" if mode == "plain" else "mic"       # one behaviour per model state (+ per state entered by a MIC failure)
-        f_st = ex.submit(gen, c, "state11", 3, 3, 1, 1, 60, mode, scover)
-        f_tr = ex.submit(gen, c, "cover33", 3, 3, 3, 3, 60, mode, scover if c.quick else "trans")
-        # C17: half of the random behaviours with MIC failures on retransmissions only (they survive the known finding)
-        f_sim = ex.submit(gen, c, "sim", 60, 60, 2, 3, dsim, mode, "sim", simulate=nsim if mode != "any" else nsim // 2)
-        f_sim2 = ex.submit(gen, c, "sim_enc", 60, 60, 2, 3, dsim, "enc", "sim", simulate=nsim // 2) if mode == "any" else None
-        f_trans = {(t, r): ex.submit(gen, c, "trans%d%d" % (capof(t), capof(r)), 3, 3, capof(r), capof(t), 60, mode, "trans")
-                   for t, r in trans_sizes}
+        # 2. behaviours (fault alphabets per property: see RECIPE)
+        rc = RECIPE[c.prop]
+        f_all = [ex.submit(gen, c, "all_" + m, 3, 3, 2, 2, d_all, m, "all") for m in rc["all"]]
+        f_st = ex.submit(gen, c, "state11", 3, 3, 1, 1, 60, rc["st"][0], rc["st"][1])
+        f_tr = ex.submit(gen, c, "cover33", 3, 3, 3, 3, 60, rc["cov"][0], rc["cov"][1] if c.quick else "trans")
+        f_sim = [ex.submit(gen, c, "sim_" + m, 60, 60, 2, 3, dsim, m, "sim", simulate=nsim // len(rc["sim"])) for m in rc["sim"]]
+        f_trans = {(t, r): ex.submit(gen, c, "trans%d%d" % (capof(t), capof(r)), 3, 3, capof(r), capof(t), 60,
+                                     rc["all"][n % len(rc["all"])], "trans")
+                   for n, (t, r) in enumerate(trans_sizes)}
         for f in f_mc + [f_impl]:
             f.result()
         if f_asis:
@@ -349,9 +358,10 @@ def run(c):
                    % ("invariant %s violated - design-level counterpart of the known finding" % r.violated if r.violated
                       else "no invariant violated"))
         exes = f_build.result()
-        b_all, b_st, b_tr, b_sim = f_all.result(), f_st.result(), f_tr.result(), f_sim.result()
-        if f_sim2:
-            b_sim = [b for pair in zip(b_sim, f_sim2.result()) for b in pair]
+        b_all = [b for f in f_all for b in f.result()]
+        b_st, b_tr = f_st.result(), f_tr.result()
+        sims = [f.result() for f in f_sim]
+        b_sim = [b for group in zip(*sims) for b in group]            # interleave the alphabets
         plan = [("all", 61, 61, b_all), ("st11", 31, 31, b_st), ("cov33", 100, 100, b_tr)]   # (tag, tx, rx, behaviours)
         if c.quick:
             plan += [("sim", 61, 31, b_sim[:len(b_sim) // 2]), ("sim", 100, 100, b_sim[len(b_sim) // 2:])]
@@ -364,6 +374,7 @@ def run(c):
             plan.append(("all", 31, 31, b_all[::7]))
             plan.append(("all", 100, 61, b_all[3::7]))
             plan.append(("all", 61, 100, b_all[5::7]))
+    c.extra["recipe"] = {k: list(v) for k, v in rc.items()}
     c.sample({"mode": mode, "behaviour": b_all[len(b_all) // 2]})
     c.sample({"mode": mode, "behaviour": b_tr[-1]})
     c.sample({"mode": mode, "behaviour": b_sim[0][:40]})
